@@ -82,6 +82,8 @@ class Norm:
             return "%s.%s" % (self.s(t[2][0]), t[1].rsplit("::", 1)[-1])
         if k == "param":
             return self.arg_map.get(t[1], t[1])
+        if k == "var":
+            return "$" + t[1]
         if k == "const":
             if t[2]:
                 return t[2].split("<")[0].rsplit("::", 1)[-1]
